@@ -454,6 +454,8 @@ def main():
             cdir = os.path.join(VERIF, "corpus", pid)
             if os.path.isdir(cdir):
                 for fn in sorted(os.listdir(cdir)):
+                    if fn.endswith(".thorough.txt") and tier != "thorough":
+                        continue   # expensive witnesses (minutes of run time) are replayed in the thorough tier only
                     cur = None
                     for l in open(os.path.join(cdir, fn)):
                         l = l.rstrip("\n")
